@@ -32,6 +32,7 @@ def run(ctx):
     ctx.guard(rule_c, ctx, ix)
     ctx.guard(rule_d, ctx, ix)
     ctx.guard(rule_e, ctx, ix)
+    ctx.guard(rule_f, ctx, ix)
 
 
 def rule_a(ctx, ix):
@@ -353,3 +354,34 @@ def rule_d(ctx, ix):
             ok = dep or _none_only(f, vp[0], r)
             ctx.ob(R, '%s `%s`' % (f.construct, norm(r)), 'the computed values depend on the view', ok,
                    detail='%s returns `%s` independently of the requested view' % (f.construct, norm(r)), where=where(f, r))
+
+
+def rule_f(ctx, ix):
+    """A parsed expression can refer to another parsed expression: evaluating the outer one evaluates the inner one in the middle
+    of its own eval().  Both put the current view into one shared namespace (glue.env), so evaluation must not take anything
+    out of that namespace again - the outer expression still needs it after the inner one returned."""
+    R = 'C14.f'
+    ctx.describe(R, 'evaluating a parsed expression never removes names from the shared namespace (re-entrancy)', floor=2)
+    c = ix.cls('glue.core.parse.ParsedCommand')
+    n = 0
+    for name in ('evaluate', 'evaluate_test'):
+        f = c.resolve_func(name)
+        if f is None:
+            raise AnalysisError('ParsedCommand.%s vanished' % name)
+        shared = {st.targets[0].id for st in walk_no_nested(f.node) if isinstance(st, ast.Assign) and isinstance(st.targets[0], ast.Name)
+                  and isinstance(st.value, ast.Call) and unparse(st.value).replace(' ', '') in ('vars(env)', 'env.__dict__', 'vars(glue.env)')}
+        if not shared:
+            raise AnalysisError('%s: the shared namespace is no longer recognised' % f.construct)
+        n += 1
+        bad = []
+        for x in ast.walk(f.node):
+            if isinstance(x, ast.Call) and isinstance(x.func, ast.Attribute) and x.func.attr in ('pop', 'popitem', 'clear', '__delitem__') \
+                    and isinstance(x.func.value, ast.Name) and x.func.value.id in shared:
+                bad.append(x)
+            if isinstance(x, ast.Delete) and any(isinstance(t, ast.Subscript) and isinstance(t.value, ast.Name) and t.value.id in shared for t in x.targets):
+                bad.append(x)
+        ctx.ob(R, f.construct, 'nothing is removed from the namespace shared by nested evaluations', not bad,
+               detail='%s removes an entry from the namespace all parsed expressions share (`%s`): when the expression refers to another '
+                      'parsed expression, the inner evaluation removes `__view` while the outer eval() still needs it - every reference '
+                      'after the nested one raises NameError, on the whole dataset and on every view'
+                      % (f.construct, norm(bad[0]) if bad else ''), where=where(f, bad[0]) if bad else f.where)
